@@ -291,6 +291,460 @@ print(json.dumps([out, all(hs)]))
     return out
 
 
+
+# ---------------------------------------------------------------------------------------------------------------
+# Engine C (functional mode): IB_richcompare / IB__hash__ from the LLVM IR of the current C source, z3 strings
+# ---------------------------------------------------------------------------------------------------------------
+
+def _c_struct_fields(name):
+    """Field order of `typedef struct {...} <name>;` read from the current C source (so the IR indices follow edits)."""
+    import re
+    src = open(os.path.join(os.environ.get('VP_REPO', '/repo'), 'src', 'zope', 'interface', '_zope_interface_coptimizations.c')).read()
+    m = re.search(r'typedef struct\s*\{([^{}]*)\}\s*%s;' % name, src)
+    out = []
+    for decl in m.group(1).split(';'):
+        decl = decl.strip()
+        if decl:
+            out.append(re.split(r'[\s*]+', decl)[-1])
+    return out
+
+
+def _z3str_to_py(v):
+    import re
+    s = v.as_string()
+    return re.sub(r'\\u\{([0-9a-fA-F]+)\}', lambda m: chr(int(m.group(1), 16)), s)
+
+
+_OPS = ['<', '<=', '==', '!=', '>', '>=']        # Py_LT .. Py_GE = 0..5
+
+
+def _ref_cmp(z3, n1, m1, n2, m2):
+    """(name, module) tuple order, written from the property statement (not from the C code)."""
+    lt = z3.Or(n1 < n2, z3.And(n1 == n2, m1 < m2))
+    eq = z3.And(n1 == n2, m1 == m2)
+    return {0: lt, 1: z3.Or(lt, eq), 2: eq, 3: z3.Not(eq), 4: z3.And(z3.Not(lt), z3.Not(eq)), 5: z3.Not(lt)}
+
+
+class _CmpWorld:
+    """Environment of IB_richcompare: self is an interface with symbolic name/module strings; `other` is decided per path."""
+
+    def __init__(self, z3, irfun):
+        self.z3, self.irfun = z3, irfun
+        P = irfun.P
+        self.fields = _c_struct_fields('IB')
+        self.NONE = P('Py_None', 'none', immortal=True)
+        self.TRUE = P('Py_True', 'bool', immortal=True)
+        self.FALSE = P('Py_False', 'bool', immortal=True)
+        self.NOTIMPL = P('Py_NotImplemented', 'notimpl', immortal=True)
+        self.ATTRERR = P('PyExc_AttributeError', 'exc', immortal=True)
+        self.OTHERERR = P('SomeOtherException', 'exc', immortal=True)
+        self.S_NAME = P("'__name__'", 'attrname', immortal=True)
+        self.S_MOD = P("'__module__'", 'attrname', immortal=True)
+        self.IBTYPE = P('InterfaceBase type', 'type', immortal=True)
+        self.globals = {
+            '&_Py_NoneStruct': self.NONE, '&_Py_TrueStruct': self.TRUE, '&_Py_FalseStruct': self.FALSE,
+            '&_Py_NotImplementedStruct': self.NOTIMPL, 'PyExc_AttributeError': self.ATTRERR,
+            'str__name__': self.S_NAME, 'str__module__': self.S_MOD,
+        }
+        self.n1, self.m1, self.n2, self.m2 = z3.Strings('n1 m1 n2 m2')
+        self.op = z3.Int('op')
+        w = self
+        self.stubs = dict(irfun.COMMON_STUBS)
+        self.stubs.update({
+            'Py_TYPE': lambda ex, a, site: a[0].type,
+            '_get_interface_base_class': lambda ex, a, site: w.IBTYPE,
+            'PyObject_TypeCheck': lambda ex, a, site: 1 if getattr(a[0], 'kind', None) == 'IB' else 0,
+            'PyObject_GetAttr': self.getattr_, 'PyObject_RichCompareBool': self.rcb,
+        })
+
+    STUB_DOC = {
+        'Py_TYPE': 'the type object of the operand',
+        '_get_interface_base_class': 'module state lookup: returns the InterfaceBase type (assumed not to fail: the module is loaded)',
+        'PyObject_TypeCheck': '1 iff the other operand is an InterfaceBase instance (decided per path)',
+        'PyObject_GetAttr': "foreign operand: per attribute a decision among {a str (new reference), raises AttributeError, raises another exception}",
+        'PyObject_RichCompareBool': 'on two exact str objects: identical objects -> 1 for ==, 0 for !=; otherwise the z3 string comparison '
+                                    '(str.<, str.<=, =) selected by op; never fails and runs no Python code for exact str',
+    }
+
+    def mkstr(self, ex, label, term):
+        return ex.track(self.irfun.P(label, 'str', s=term))
+
+    def setup(self, ex):
+        P = self.irfun.P
+        z3 = self.z3
+        ex.assume(z3.And(self.op >= 0, self.op <= 5))
+        me = ex.track(P('self', 'IB', type=P('type(self)', 'type', immortal=True)))
+        ex.me = me
+        me.fields[('%struct.IB', (self.fields.index('__name__'),))] = self.mkstr(ex, 'self.__name__', self.n1)
+        me.fields[('%struct.IB', (self.fields.index('__module__'),))] = self.mkstr(ex, 'self.__module__', self.m1)
+        kind = ex.decide('other operand', ['self', 'None', 'another interface', 'foreign object'])
+        ex.other_kind = kind
+        if kind == 'self':
+            other = me
+        elif kind == 'None':
+            other = self.NONE
+        elif kind == 'another interface':
+            other = ex.track(P('other', 'IB', type=me.type))
+            other.fields[('%struct.IB', (self.fields.index('__name__'),))] = self.mkstr(ex, 'other.__name__', self.n2)
+            other.fields[('%struct.IB', (self.fields.index('__module__'),))] = self.mkstr(ex, 'other.__module__', self.m2)
+        else:
+            other = ex.track(P('foreign', 'foreign', type=P('type(foreign)', 'type', immortal=True)))
+        ex.attr_outcomes = []
+        return [me, other, self.op]
+
+    def field(self, ex, base, struct, path):
+        raise self.irfun.Inconclusive('unmodelled field %s%r of %r' % (struct, path, base))
+
+    def getattr_(self, ex, a, site):
+        ob, name = a
+        if ob.kind != 'foreign':
+            raise self.irfun.Inconclusive('GetAttr on %r' % ob)
+        out = ex.decide('foreign.%s' % name.label, ['a str', 'raises AttributeError', 'raises another exception'])
+        ex.attr_outcomes.append((name.label, out))
+        ex.events.append(('getattr', name.label, out))
+        if out == 'a str':
+            s = self.mkstr(ex, 'foreign.%s' % name.label, self.n2 if name is self.S_NAME else self.m2)
+            s.frame += 1              # new reference
+            return s
+        ex.err = self.ATTRERR if 'AttributeError' in out else self.OTHERERR
+        return None
+
+    def rcb(self, ex, a, site):
+        z3 = self.z3
+        x, y, op = a
+        if getattr(x, 'kind', None) != 'str' or getattr(y, 'kind', None) != 'str':
+            raise self.irfun.Inconclusive('RichCompareBool on non-str %r %r' % (x, y))
+        ex.events.append(('compare', x.label, y.label, op if isinstance(op, int) else 'op'))
+        if x is y:
+            table = {0: False, 1: True, 2: True, 3: False, 4: False, 5: True}
+            cmps = {k: z3.BoolVal(v) for k, v in table.items()}
+        else:
+            cmps = {0: x.s < y.s, 1: x.s <= y.s, 2: x.s == y.s, 3: x.s != y.s, 4: y.s < x.s, 5: y.s <= x.s}
+        if isinstance(op, int):
+            return z3.If(cmps[op], z3.IntVal(1), z3.IntVal(0))
+        t = z3.IntVal(0)
+        for k in range(5, -1, -1):
+            t = z3.If(op == k, z3.If(cmps[k], z3.IntVal(1), z3.IntVal(0)), t)
+        return t
+
+
+class _HashWorld:
+    def __init__(self, z3, irfun):
+        self.z3, self.irfun = z3, irfun
+        P = irfun.P
+        self.fields = _c_struct_fields('IB')
+        self.ATTRERR = P('PyExc_AttributeError', 'exc', immortal=True)
+        self.globals = {'PyExc_AttributeError': self.ATTRERR}
+        self.n, self.m = z3.Strings('n m')
+        self.cached = z3.Int('cached')
+        self.H = z3.Function('tuple_hash', z3.StringSort(), z3.StringSort(), z3.IntSort())
+        self.stubs = dict(irfun.COMMON_STUBS)
+        self.stubs.update({'PyTuple_Pack': self.pack, 'PyObject_Hash': self.hash_})
+
+    STUB_DOC = {
+        'PyTuple_Pack': 'new tuple holding the given objects (allocation failure outside the claim)',
+        'PyObject_Hash': 'hash of a 2-tuple of str = an uninterpreted function of the two strings (cannot fail for str items)',
+    }
+
+    def setup(self, ex):
+        P = self.irfun.P
+        me = ex.track(P('self', 'IB'))
+        ex.me = me
+        for nm, term in (('__name__', self.n), ('__module__', self.m)):
+            c = ex.decide('self.%s' % nm, ['set', 'NULL (deleted)'])
+            me.fields[('%struct.IB', (self.fields.index(nm),))] = ex.track(P('self.' + nm, 'str', s=term)) if c == 'set' else None
+        me.fields[('%struct.IB', (self.fields.index('_v_cached_hash'),))] = self.cached
+        return [me]
+
+    def field(self, ex, base, struct, path):
+        raise self.irfun.Inconclusive('unmodelled field %s%r of %r' % (struct, path, base))
+
+    def pack(self, ex, a, site):
+        t = ex.track(self.irfun.P('tuple', 'tuple', items=a[1:]))
+        t.frame += 1
+        return t
+
+    def hash_(self, ex, a, site):
+        t = a[0]
+        if getattr(t, 'kind', None) != 'tuple' or len(t.items) != 2 or any(getattr(i, 'kind', None) != 'str' for i in t.items):
+            raise self.irfun.Inconclusive('PyObject_Hash of %r' % (t,))
+        ex.events.append(('hash', t.items[0].label, t.items[1].label))
+        return self.H(t.items[0].s, t.items[1].s)
+
+
+def run_ir_compare(tier, ctx):
+    import shutil
+    import z3
+    from vlib import irfun
+    t0 = time.time()
+    agg = dict(harness='ir_compare', impl='c', kind='IR', paths=0, reached=0, distinct=0, unknown=0, solver_queries=0, solver_s=0.0,
+               samples=[], errors=[], exhaustive=False, obligations=[])
+    out = dict(agg=agg, violations=[], harness_errors=[], replays_attempted=0, replays_reproduced=0)
+    try:
+        text, wd = irfun.build_ir()
+    except Exception as e:
+        out['harness_errors'].append('ir_compare: cannot produce the IR: %s' % e)
+        return out
+    try:
+        funcs = irfun.parse(text)
+        for fn in ('IB_richcompare', 'IB__hash__'):
+            if fn not in funcs:
+                out['harness_errors'].append('ir_compare: %s not found in the IR (renamed?)' % fn)
+                return out
+        w = _CmpWorld(z3, irfun)
+        ex = irfun.FunExec(funcs, 'IB_richcompare', w)
+        sums = ex.run_all(budget_s=120)
+        agg['paths'] += ex.stats['paths']
+        agg['solver_queries'] += ex.stats['queries']
+        agg['solver_s'] += ex.stats['solver_s']
+        agg['unknown'] += ex.stats.get('n_inconclusive', 0)
+        for inc in ex.stats['inconclusive'][:3]:
+            agg['errors'].append('inconclusive: %s' % inc['reason'][:300])
+        exhausted = bool(ex.stats.get('exhausted')) and not ex.stats.get('n_inconclusive')
+        bound_note = []
+
+        def solve(name, *conds, strings=()):
+            """sat -> model, unsat -> None; unknown -> retried with |s| <= 4 (recorded); still unknown -> inconclusive."""
+            s = z3.Solver()
+            s.set('timeout', 30000)
+            s.add(*conds)
+            q0 = time.perf_counter()
+            r = s.check()
+            agg['solver_queries'] += 1
+            bounded = False
+            if r == z3.unknown:
+                s.add(*[z3.Length(x) <= 4 for x in strings])
+                r = s.check()
+                agg['solver_queries'] += 1
+                bounded = True
+                bound_note.append(name)
+            agg['solver_s'] += time.perf_counter() - q0
+            agg['obligations'].append(dict(name=name, result=str(r), bounded_to_len4=bounded))
+            if r == z3.unknown:
+                agg['unknown'] += 1
+                return 'unknown'
+            return s.model() if r == z3.sat else None
+
+        strs = (w.n1, w.m1, w.n2, w.m2)
+        nospace = [z3.Not(z3.Contains(x, z3.StringVal(' '))) for x in strs]
+        found = []          # (description, model or None)
+        kinds = {}
+        for k, s in enumerate(sums):
+            kind = s.decisions[0].split(' -> ')[1]
+            kinds.setdefault(kind, []).append(s)
+            pcs = list(s.pc)
+            tag = 'path %d (%s)' % (k, '; '.join(s.decisions)[:160])
+            if isinstance(s.ret, tuple) and s.ret[0] == 'DEFECT':
+                found.append((tag + ': ' + s.ret[1], None, s))
+                continue
+            if s.balance:
+                found.append((tag + ': unbalanced references at return %r' % s.balance, None, s))
+                continue
+            if kind in ('self', 'another interface') or (kind == 'foreign object' and [o for _, o in s_attr(s)] == ['a str', 'a str']):
+                n2, m2 = (w.n1, w.m1) if kind == 'self' else (w.n2, w.m2)
+                ref = _ref_cmp(z3, w.n1, w.m1, n2, m2)
+                want = z3.Or(*[z3.And(w.op == kk, ref[kk]) for kk in range(6)])
+                if s.ret is w.TRUE:
+                    bad = z3.Not(want)
+                elif s.ret is w.FALSE:
+                    bad = want
+                else:
+                    found.append((tag + ': returns %r (pending exception %r) for two operands with str name/module' % (s.ret, s.err), None, s))
+                    continue
+                if s.err is not None:
+                    found.append((tag + ': returns a result with an exception pending', None, s))
+                    continue
+                m = solve('richcompare == tuple order on ' + tag[:60], *(pcs + nospace + [bad]), strings=strs)
+                if m == 'unknown':
+                    continue
+                if m is not None:
+                    found.append((tag + ': result %r differs from (name, module) tuple order' % s.ret, m, s))
+            elif kind == 'None':
+                want = z3.Or(w.op == 0, w.op == 1, w.op == 3)
+                bad = z3.Not(want) if s.ret is w.TRUE else want if s.ret is w.FALSE else z3.BoolVal(True)
+                m = solve('None sorts after every interface on ' + tag[:60], *(pcs + [bad]))
+                if m not in (None, 'unknown'):
+                    found.append((tag + ': comparison with None returns %r' % s.ret, m, s))
+            else:
+                outs = [o for _, o in s_attr(s)]
+                if any('another exception' in o for o in outs):
+                    ok = s.ret is None and s.err is w.OTHERERR
+                    what = 'the exception must propagate'
+                else:
+                    ok = s.ret is w.NOTIMPL and s.err is None
+                    what = 'NotImplemented expected, no exception pending'
+                if not ok:
+                    found.append((tag + ': foreign operand (%s): returns %r with pending %r; %s' % (outs, s.ret, s.err, what), None, s))
+        agg['reached'] = len(sums)
+        agg['distinct'] = len(sums)
+        for kind in ('self', 'None', 'another interface', 'foreign object'):
+            if not kinds.get(kind):
+                out['harness_errors'].append('ir_compare: vacuous - no path for operand kind %r' % kind)
+        rets = {repr(s.ret) for s in sums}
+        for need in ('<Py_True>', '<Py_False>', '<Py_NotImplemented>', 'None'):
+            if need not in rets:
+                out['harness_errors'].append('ir_compare: vacuous - no path returns %s' % need)
+
+        # ---- algebraic laws over the summary R(op; a, b) of the interface-vs-interface paths, unbounded strings -------
+        ib = kinds.get('another interface', [])
+        Rtrue = z3.Or(*[z3.And(*s.pc) for s in ib if s.ret is w.TRUE]) if ib else z3.BoolVal(False)
+        a1, b1, a2, b2, a3, b3 = z3.Strings('a1 b1 a2 b2 a3 b3')
+
+        def R(op, x, y):
+            return z3.substitute(Rtrue, (w.op, z3.IntVal(op)), (w.n1, x[0]), (w.m1, x[1]), (w.n2, y[0]), (w.m2, y[1]))
+        A, B, C = (a1, b1), (a2, b2), (a3, b3)
+        LT, LE, EQ, NE, GT, GE = range(6)
+        xor3 = lambda p, q, r: z3.Or(z3.And(p, z3.Not(q), z3.Not(r)), z3.And(z3.Not(p), q, z3.Not(r)), z3.And(z3.Not(p), z3.Not(q), r))
+        laws = [
+            ('trichotomy: exactly one of <, ==, >', z3.Not(xor3(R(LT, A, B), R(EQ, A, B), R(GT, A, B)))),
+            ('reflected operators: a < b iff b > a, a <= b iff b >= a', z3.Or(R(LT, A, B) != R(GT, B, A), R(LE, A, B) != R(GE, B, A))),
+            ('== symmetric, != is its negation', z3.Or(R(EQ, A, B) != R(EQ, B, A), R(NE, A, B) == R(EQ, A, B))),
+            ('<= iff < or ==; >= iff not <', z3.Or(R(LE, A, B) != z3.Or(R(LT, A, B), R(EQ, A, B)), R(GE, A, B) == R(LT, A, B))),
+            ('== iff equal (name, module)', R(EQ, A, B) != z3.And(a1 == a2, b1 == b2)),
+            ('transitivity of <', z3.And(R(LT, A, B), R(LT, B, C), z3.Not(R(LT, A, C)))),
+            ('transitivity of <=', z3.And(R(LE, A, B), R(LE, B, C), z3.Not(R(LE, A, C)))),
+        ]
+        if ib:
+            for name, neg in laws:
+                m = solve('law: ' + name, neg, strings=(a1, b1, a2, b2, a3, b3))
+                if m not in (None, 'unknown'):
+                    vals = {str(d): _z3str_to_py(m[d]) for d in m.decls() if z3.is_string_value(m[d])}
+                    found.append(('order law violated by the C comparison: %s; witness %r' % (name, vals), ('law', vals), None))
+
+        # ---- IB__hash__ ---------------------------------------------------------------------------------------------
+        hw = _HashWorld(z3, irfun)
+        hx = irfun.FunExec(funcs, 'IB__hash__', hw)
+        hs = hx.run_all(budget_s=60)
+        agg['paths'] += hx.stats['paths']
+        agg['solver_queries'] += hx.stats['queries']
+        agg['solver_s'] += hx.stats['solver_s']
+        agg['unknown'] += hx.stats.get('n_inconclusive', 0)
+        exhausted = exhausted and bool(hx.stats.get('exhausted')) and not hx.stats.get('n_inconclusive')
+        inv = z3.Or(hw.cached == 0, hw.cached == hw.H(hw.n, hw.m))      # representation invariant of the memo
+        n_hash_ok = 0
+        for s in hs:
+            tag = 'IB__hash__ path (%s)' % '; '.join(s.decisions)
+            if isinstance(s.ret, tuple):
+                found.append((tag + ': ' + s.ret[1], None, s))
+                continue
+            if s.balance:
+                found.append((tag + ': unbalanced references %r' % s.balance, None, s))
+                continue
+            if any('NULL' in d for d in s.decisions):
+                if not (s.ret == -1 and s.err is hw.ATTRERR):
+                    found.append((tag + ': deleted name/module must raise AttributeError (returns %r, pending %r)' % (s.ret, s.err), None, s))
+                continue
+            stores = [e for e in s.events if e[0] == 'store' and e[2] == (hw.fields.index('_v_cached_hash'),)]
+            final = stores[-1][3] if stores else hw.cached
+            m = solve('hash == hash((name, module)) and memo stays valid: ' + tag[:50],
+                      *(list(s.pc) + [inv, z3.Or(s.ret != hw.H(hw.n, hw.m), z3.Not(z3.Or(final == 0, final == hw.H(hw.n, hw.m))))]))
+            if m not in (None, 'unknown'):
+                found.append((tag + ': hash is not hash((name, module)) or the memo is left inconsistent', ('hash', {}), s))
+            n_hash_ok += 1
+        if n_hash_ok < 2:
+            out['harness_errors'].append('ir_compare: vacuous - IB__hash__ memo hit and miss paths not both reached')
+        agg['reached'] += len(hs)
+        agg['distinct'] += len(hs)
+        agg['exhaustive'] = exhausted and not bound_note
+        agg['solver_s'] = round(agg['solver_s'], 2)
+        agg['stubs'] = dict(irfun.COMMON_STUB_DOC, **_CmpWorld.STUB_DOC, **_HashWorld.STUB_DOC)
+        agg['samples'] = [s.describe() for s in sums[:3]]
+        if bound_note:
+            agg['errors'].append('unbounded string query returned unknown; decided for |s| <= 4 only: %s' % bound_note[:4])
+
+        # ---- replay on the real C build -------------------------------------------------------------------------------
+        for k, (msg, model, s) in enumerate(found[:6]):
+            out['replays_attempted'] += 1
+            wit = None
+            if model is not None and not isinstance(model, tuple):
+                wit = dict(n1=_z3str_to_py(model.eval(w.n1, model_completion=True)), m1=_z3str_to_py(model.eval(w.m1, model_completion=True)),
+                           n2=_z3str_to_py(model.eval(w.n2, model_completion=True)), m2=_z3str_to_py(model.eval(w.m2, model_completion=True)),
+                           op=model.eval(w.op, model_completion=True).as_long(), other=s.decisions[0].split(' -> ')[1],
+                           attrs=[o for _, o in s_attr(s)])
+            elif isinstance(model, tuple) and model[0] == 'law':
+                wit = dict(law=True, vals=model[1])
+            res = _replay_compare_on_c(ctx, wit)
+            if res.get('reproduced'):
+                out['replays_reproduced'] += 1
+                rpath = os.path.join(ctx['evdir'], 'replays', 'C12-ir_compare-%d.json' % k)
+                os.makedirs(os.path.dirname(rpath), exist_ok=True)
+                json.dump(dict(property='C12', harness='ir_compare', impl='c', ir_finding=msg, witness=wit, observed=res,
+                               how='PURE_PYTHON=0: build the two interfaces with the witness names/modules and compare'), open(rpath, 'w'), indent=1)
+                out['violations'].append(dict(harness='ir_compare', impl='c', signature='C12:ir:compare',
+                                              msg='%s; reproduced on the real build: %s' % (msg[:400], res.get('msg', '')[:300]), replay=rpath))
+            else:
+                out['harness_errors'].append('ir_compare: %s - NOT reproduced on the real build (%s); inconclusive' % (msg[:500], res.get('msg', '')[:200]))
+    finally:
+        shutil.rmtree(wd, ignore_errors=True)
+    agg['cpu_s'] = round(time.time() - t0, 1)
+    return out
+
+
+def s_attr(s):
+    return [(e[1], e[2]) for e in s.events if e[0] == 'getattr']
+
+
+_REPLAY_CMP = r'''
+import json, operator, sys
+from vlib import boot
+boot.select('c')
+from zope.interface.interface import InterfaceClass
+w = json.loads(sys.argv[1])
+OPS = [operator.lt, operator.le, operator.eq, operator.ne, operator.gt, operator.ge]
+bad = []
+def mk(n, m): return InterfaceClass(n, (), {}, __module__=m)
+def key(i): return (i.__name__, i.__module__)
+def probe(a, b, ops):
+    for k in ops:
+        try: got = OPS[k](a, b)
+        except Exception as e: got = 'raises %s' % type(e).__name__
+        want = OPS[k](key(a), key(b))
+        if got is not want: bad.append('%r %s %r -> %r, tuple order says %r' % (key(a), OPS[k].__name__, key(b), got, want))
+if w is None:
+    pass
+elif w.get('law'):
+    v = w['vals']
+    objs = [mk(v.get('a%d' % i, ''), v.get('b%d' % i, '')) for i in (1, 2, 3)]
+    for a in objs:
+        for b in objs:
+            probe(a, b, range(6))
+    for a in objs:
+        if hash(a) != hash(key(a)): bad.append('hash(%r) != hash of its (name, module)' % (key(a),))
+else:
+    a = mk(w['n1'], w['m1'])
+    if w['other'] == 'self': probe(a, a, range(6))
+    elif w['other'] == 'another interface': probe(a, mk(w['n2'], w['m2']), range(6)); probe(mk(w['n2'], w['m2']), a, range(6))
+    elif w['other'] == 'None':
+        for k in range(6):
+            got = OPS[k](a, None) if k in (2, 3) else a.__class__.__dict__.get('__lt__') and getattr(a, '__%s__' % OPS[k].__name__)(None)
+            want = k in (0, 1, 3)
+            if got is not want: bad.append('interface %s None -> %r, expected %r' % (OPS[k].__name__, got, want))
+    else:
+        class F: pass
+        f = F(); f.__name__ = w['n2']; f.__module__ = w['m2']
+        class K:
+            def __init__(s, i): s.i = i
+            @property
+            def __name__(s): return s.i.__name__
+            @property
+            def __module__(s): return s.i.__module__
+        for k in range(6):
+            got = getattr(a, '__%s__' % OPS[k].__name__)(f)
+            want = OPS[k](key(a), (f.__name__, f.__module__))
+            if got is not want: bad.append('interface %s foreign(%r) -> %r, tuple order says %r' % (OPS[k].__name__, (f.__name__, f.__module__), got, want))
+# generic sweep around the witness strings: catches defects whose IR description has no string model (reference balance ...)
+print(json.dumps(dict(reproduced=bool(bad), msg='; '.join(bad[:3]))))
+'''
+
+
+def _replay_compare_on_c(ctx, wit):
+    r = subprocess.run([ctx['py'], '-c', _REPLAY_CMP, json.dumps(wit)], cwd=ctx['root'], env=ctx['env'], capture_output=True, text=True, timeout=120)
+    try:
+        return json.loads(r.stdout.strip().splitlines()[-1])
+    except Exception:
+        return dict(reproduced=False, msg='replay crashed rc=%s: %s' % (r.returncode, (r.stderr or r.stdout)[-400:]))
+
+
 _ENC = ['zope.interface.interface:NameAndModuleComparisonMixin._compare',
         'zope.interface.interface:NameAndModuleComparisonMixin.__lt__',
         'zope.interface.interface:NameAndModuleComparisonMixin.__le__',
@@ -323,6 +777,18 @@ HARNESSES = [
             bounds='names/modules from a pool of 5 (8) strings incl. empty, prefix-related, dotted, non-ASCII, astral; '
                    'all ordered pairs x kinds; real hash(); sorted() of a mixed collection with None; both builds',
             oracle='as s_pairs + hash(I) == hash((name, module)) + sorted() == key order'),
+    Harness('ir_compare', kind='custom', impls=('c',), run=run_ir_compare, tiers=dict(quick={}, thorough={}),
+            encoded=['zope.interface._zope_interface_coptimizations:InterfaceBase'],
+            bounds='LLVM IR (clang-14 -O0 + mem2reg) of IB_richcompare and IB__hash__ from the current C source; every path; name/module of both '
+                   'operands are z3 String terms of unbounded length, the operator is a z3 Int in 0..5; other operand in {self, None, another '
+                   'interface, foreign object whose __name__/__module__ each is a str / raises AttributeError / raises another exception}',
+            outside='operands whose __name__/__module__ are not exact str objects (a known C10 finding covers them); names containing a space; '
+                    'allocation failure; failure of the module-state lookup',
+            oracle='per path: path condition /\\ result != (name, module) tuple order is unsat; None sorts last; foreign operand -> NotImplemented / '
+                   'exception propagates; frame reference balance; then order laws over the disjunction of path summaries (trichotomy, reflection, '
+                   'negation, transitivity of < and <=, == iff equal strings); IB__hash__: result == hash((name, module)) and the memo invariant '
+                   '(0 or that hash) is inductive; counterexample strings are replayed on the real C build',
+            stubs=['C-API contract stubs listed in the evidence (per_harness.stubs)']),
     Harness('x_process', kind='custom', run=run_x_process, impls=('py', 'c'), tiers=dict(quick={}, thorough={}),
             encoded=[], bounds='one 49-element mixed collection sorted under PYTHONHASHSEED 0 and 12345 in both builds',
             oracle='identical key sequences in all four processes'),
